@@ -12,6 +12,7 @@ import (
 	"golang.org/x/tools/go/cfg"
 	"golang.org/x/tools/go/packages"
 
+	"kapcheck/an"
 	"kapcheck/core"
 )
 
@@ -54,6 +55,12 @@ type posProver struct {
 	valueUse map[*types.Func]bool
 	calls    map[*types.Func][]posCall
 	trail    []string
+	// lo is the bound to prove: e >= lo (1 = positive, the default; 0 = not negative)
+	lo int64
+	// sawPipeline: the search met a field of a pipeline node type (a value a script sets)
+	sawPipeline bool
+	// nonzero: a test that excludes zero is enough (divisors)
+	nonzero bool
 }
 
 type posCall struct {
@@ -63,7 +70,7 @@ type posCall struct {
 }
 
 func newPosProver(c *core.Ctx) *posProver {
-	p := &posProver{c: c, units: map[*types.Func]posUnit{}, valueUse: map[*types.Func]bool{}, calls: map[*types.Func][]posCall{}}
+	p := &posProver{c: c, units: map[*types.Func]posUnit{}, valueUse: map[*types.Func]bool{}, calls: map[*types.Func][]posCall{}, lo: 1}
 	p.pkgs = c.P.ModPkgs
 	for _, pkg := range p.pkgs {
 		info := pkg.TypesInfo
@@ -265,6 +272,26 @@ func impliesBound(info *types.Info, cond ast.Expr, branch bool, text string, bou
 	return false
 }
 
+// impliesNonZero: cond evaluating to branch implies text != 0 (`E != 0` taken, `E == 0` not taken).
+func impliesNonZero(info *types.Info, cond ast.Expr, branch bool, text string) bool {
+	b, ok := ast.Unparen(cond).(*ast.BinaryExpr)
+	if !ok || (b.Op != token.EQL && b.Op != token.NEQ) {
+		return false
+	}
+	l, r := ast.Unparen(b.X), ast.Unparen(b.Y)
+	if types.ExprString(r) == text {
+		l, r = r, l
+	}
+	if types.ExprString(l) != text {
+		return false
+	}
+	tv, ok := info.Types[r]
+	if !ok || tv.Value == nil || constant.Sign(constant.ToInt(tv.Value)) != 0 {
+		return false
+	}
+	return (b.Op == token.NEQ) == branch
+}
+
 // viaConnectives decides an implication for a condition built with !, && and || from its comparisons (go/cfg keeps a
 // short-circuit condition as one node): A || B false means both false, A && B true means both true; the other two cases need
 // the implication from both operands.
@@ -295,6 +322,12 @@ func viaConnectives(cond ast.Expr, branch bool, atom func(cond ast.Expr, branch 
 // guardedBy: on every path of body that reaches site, a test for which implies(cond, branch) holds has been passed and the
 // tested expression (text) has not been assigned since.
 func guardedBy(body *ast.BlockStmt, site ast.Node, text string, implies func(cond ast.Expr, branch bool) bool) bool {
+	return guardedByEst(body, site, text, implies, nil)
+}
+
+// guardedByEst: establishes(stmt) says that the statement, an assignment to the tested expression, itself leaves the bound
+// holding (a clamp: `if x < 2 { x = 2 }`).
+func guardedByEst(body *ast.BlockStmt, site ast.Node, text string, implies func(cond ast.Expr, branch bool) bool, establishes func(n ast.Node) bool) bool {
 	g := cfg.New(body, func(*ast.CallExpr) bool { return true })
 	if len(g.Blocks) == 0 {
 		return false
@@ -350,6 +383,9 @@ func guardedBy(body *ast.BlockStmt, site ast.Node, text string, implies func(con
 			}
 			if kills(n) {
 				st = no
+				if establishes != nil && establishes(n) {
+					st = yes
+				}
 			}
 		}
 		t, f := st, st
@@ -416,11 +452,15 @@ func (p *posProver) prove(u posUnit, site ast.Node, e posExpr, depth int) bool {
 	where := u.decl.Name.Name
 	if len(e.fields) == 0 {
 		if tv, ok := info.Types[ast.Unparen(e.root)]; ok && tv.Value != nil {
-			if v := constant.ToInt(tv.Value); v.Kind() == constant.Int && constant.Sign(v) > 0 {
+			if v := constant.ToInt(tv.Value); v.Kind() == constant.Int && constant.Compare(v, token.GEQ, constant.MakeInt64(p.lo)) {
 				return true
 			}
 			p.note("%s: %s is the constant %s", where, text, tv.Value)
 			return false
+		}
+		// len(x) and cap(x) are not negative
+		if call, ok := e.root.(*ast.CallExpr); ok && p.lo <= 0 && (core.IsBuiltin(info, call, "len") || core.IsBuiltin(info, call, "cap")) {
+			return true
 		}
 		// conversion time.Duration(x)
 		if call, ok := e.root.(*ast.CallExpr); ok && len(call.Args) == 1 {
@@ -430,8 +470,28 @@ func (p *posProver) prove(u posUnit, site ast.Node, e posExpr, depth int) bool {
 		}
 	}
 	body, inLit := enclosingBody(u.decl, site)
-	if guardedAt(info, body, site, text) {
+	if guardedBy(body, site, text, func(cond ast.Expr, br bool) bool {
+		return impliesBound(info, cond, br, text, p.lo, false) || (p.nonzero && impliesNonZero(info, cond, br, text))
+	}) {
 		return true
+	}
+	// a field of a pipeline node: the value a script sets
+	if len(e.fields) > 0 {
+		t := info.TypeOf(e.root)
+		for _, f := range e.fields {
+			if t == nil {
+				break
+			}
+			o, _, _ := types.LookupFieldOrMethod(t, true, u.pkg.Types, f)
+			fv, ok := o.(*types.Var)
+			if !ok {
+				break
+			}
+			if fv.Pkg() != nil && strings.HasSuffix(fv.Pkg().Path(), "/pipeline") {
+				p.sawPipeline = true
+			}
+			t = fv.Type()
+		}
 	}
 	if depth <= 0 {
 		p.note("%s: %s: depth bound reached", where, text)
@@ -565,6 +625,9 @@ func (p *posProver) proveField(u posUnit, e posExpr, depth int) bool {
 		return false
 	}
 	if fv.Pkg() != nil && strings.HasSuffix(fv.Pkg().Path(), "/pipeline") {
+		if p.constructorEstablishes(owner, fv) {
+			return true
+		}
 		p.note("%s.%s is a pipeline property: TICKscript sets it by reflection to any value", owner.Obj().Name(), fv.Name())
 		return false
 	}
@@ -765,4 +828,329 @@ func c05Ticker(c *core.Ctx) {
 		}
 	}
 	c.Floor("C05.ticker", "ticker sites in the task-running packages", n, 9)
+}
+
+// c05ArgFlow: the other operations that panic on an argument a script can set. Sinks in the task-running packages: the size
+// arguments of make (must not be negative), integer divisors (must not be zero), strings.Repeat counts and rand.Intn bounds.
+// The same backward proof as C05.ticker is attempted; a sink is reported only when the search met a field of a pipeline node
+// on the way (the value derives from a TICKscript property) and found no proof — internal counters are not in scope.
+func c05ArgFlow(c *core.Ctx) {
+	c.Rule("C05.argflow", "A10 (guard provenance, reported only for values traced to a pipeline property): make sizes are not negative, integer divisors not zero, strings.Repeat counts not negative and rand.Intn bounds positive wherever the value derives from a field of a pipeline node — a constant, a dominating test, the same at every call site / every store")
+	pp := newPosProver(c)
+	nSinks, nScript := 0, 0
+	seenCons := map[string]int{}
+	for _, pkg := range c.P.ModPkgs {
+		rel := strings.TrimPrefix(strings.TrimPrefix(pkg.PkgPath, core.Module), "/")
+		if _, ok := c05TickerScope[rel]; !ok {
+			continue
+		}
+		info := pkg.TypesInfo
+		var fds []*ast.FuncDecl
+		for _, file := range pkg.Syntax {
+			for _, d := range file.Decls {
+				if fd, ok := d.(*ast.FuncDecl); ok && fd.Body != nil {
+					fds = append(fds, fd)
+				}
+			}
+		}
+		sort.Slice(fds, func(i, j int) bool { return fds[i].Pos() < fds[j].Pos() })
+		for _, fd := range fds {
+			fname := fd.Name.Name
+			if r := core.RecvName(fd); r != "" {
+				fname = r + "." + fname
+			}
+			type sink struct {
+				x       ast.Expr
+				site    ast.Node
+				lo      int64
+				nonzero bool
+				what    string
+			}
+			var sinks []sink
+			ast.Inspect(fd.Body, func(nd ast.Node) bool {
+				switch x := nd.(type) {
+				case *ast.CallExpr:
+					if core.IsBuiltin(info, x, "make") {
+						for _, a := range x.Args[1:] {
+							sinks = append(sinks, sink{a, x, 0, false, "the size of make"})
+						}
+					}
+					if cal := core.Callee(info, x); cal != nil && cal.Pkg() != nil {
+						switch {
+						case cal.Pkg().Path() == "strings" && cal.Name() == "Repeat" && len(x.Args) == 2:
+							sinks = append(sinks, sink{x.Args[1], x, 0, false, "the count of strings.Repeat"})
+						case (cal.Pkg().Path() == "math/rand" || cal.Pkg().Path() == "math/rand/v2") && (cal.Name() == "Intn" || cal.Name() == "Int63n" || cal.Name() == "Int31n") && len(x.Args) == 1:
+							sinks = append(sinks, sink{x.Args[0], x, 1, false, "the bound of rand." + cal.Name()})
+						}
+					}
+				case *ast.BinaryExpr:
+					if x.Op == token.QUO || x.Op == token.REM {
+						if b, ok := info.TypeOf(x.Y).Underlying().(*types.Basic); ok && b.Info()&types.IsInteger != 0 {
+							sinks = append(sinks, sink{x.Y, x, 1, true, "the divisor of an integer " + x.Op.String()})
+						}
+					}
+				}
+				return true
+			})
+			for _, sk := range sinks {
+				if tv, ok := info.Types[sk.x]; ok && tv.Value != nil {
+					continue // constants are the compiler's business
+				}
+				nSinks++
+				e := flattenPos(sk.x)
+				pp.trail, pp.sawPipeline, pp.lo, pp.nonzero = nil, false, sk.lo, sk.nonzero
+				proved := pp.prove(posUnit{pkg, fd}, sk.site, e, 5)
+				if !pp.sawPipeline {
+					continue // not traced to a script property
+				}
+				nScript++
+				c.AnalysedName(fname)
+				cons := fname + "#" + posConstruct(info, e)
+				seenCons[cons]++
+				if k := seenCons[cons]; k > 1 {
+					cons += fmt.Sprintf("#%d", k)
+				}
+				if ex, ok := c05ArgFlowExempt[cons]; ok && !proved {
+					if good, why := ex.verify(c); good {
+						c.Ok("C05.argflow", cons, "reviewed exception: "+ex.reason)
+						continue
+					} else {
+						pp.trail = append(pp.trail, "the reviewed exception no longer holds: "+why)
+					}
+				}
+				if proved {
+					c.Ok("C05.argflow", cons)
+				} else {
+					need := map[bool]string{true: "not zero", false: map[int64]string{0: "not negative", 1: "positive"}[sk.lo]}[sk.nonzero]
+					c.Fail("C05.argflow", cons, sk.x.Pos(), "%s in %s is %s, which derives from a property of a pipeline node and is not proved %s (%s): a script that sets the property to such a value is accepted and the task dies with a run-time panic — at its first point, or takes the process with it when the goroutine is not the node's", sk.what, fname, e.text(), need, strings.Join(pp.trail, "; "))
+				}
+			}
+		}
+	}
+	pp.lo, pp.nonzero = 1, false
+	c.Note("C05.argflow: %d non-constant sinks in the task-running packages, %d traced to a pipeline property", nSinks, nScript)
+	c.Floor("C05.argflow", "non-constant sinks examined", nSinks, 20)
+}
+
+// constructorEstablishes: the field fv of the pipeline node type owner is given its bound by every runtime constructor of the
+// node — a function of a task-running package that takes a *owner parameter and stores it into the runtime node it returns:
+// on every path to a return that hands out the node (a non-nil first result), a test of <param>.<field> that implies the bound
+// has been passed or the field has been clamped to a sufficient constant, and nothing in the task-running packages stores the
+// field anywhere else. The runtime node only exists behind its constructor, so its readers may rely on the bound.
+func (p *posProver) constructorEstablishes(owner *types.Named, fv *types.Var) bool {
+	ctors := 0
+	for _, pkg := range p.pkgs {
+		rel := strings.TrimPrefix(strings.TrimPrefix(pkg.PkgPath, core.Module), "/")
+		if _, ok := c05TickerScope[rel]; !ok {
+			continue
+		}
+		info := pkg.TypesInfo
+		for _, file := range pkg.Syntax {
+			for _, d := range file.Decls {
+				fd, ok := d.(*ast.FuncDecl)
+				if !ok || fd.Body == nil || fd.Type.Params == nil {
+					continue
+				}
+				// the *owner parameter
+				param := ""
+				for _, fl := range fd.Type.Params.List {
+					if pt, ok := info.TypeOf(fl.Type).(*types.Pointer); ok && core.NamedOf(pt.Elem()) == owner && len(fl.Names) == 1 {
+						param = fl.Names[0].Name
+					}
+				}
+				isCtor := false
+				if param != "" {
+					// stores the parameter into a composite literal (the runtime node) and returns (x, error)
+					ast.Inspect(fd.Body, func(n ast.Node) bool {
+						if kv, ok := n.(*ast.KeyValueExpr); ok {
+							if id, ok := ast.Unparen(kv.Value).(*ast.Ident); ok && id.Name == param {
+								isCtor = true
+							}
+						}
+						return true
+					})
+				}
+				// any other store to the field in these packages breaks the argument
+				otherStore := false
+				ast.Inspect(fd.Body, func(n ast.Node) bool {
+					if as, ok := n.(*ast.AssignStmt); ok {
+						for _, l := range as.Lhs {
+							if sel, ok := ast.Unparen(l).(*ast.SelectorExpr); ok {
+								if sl, ok := info.Selections[sel]; ok && sl.Obj() == fv && !(isCtor && types.ExprString(sel.X) == param) {
+									otherStore = true
+								}
+							}
+						}
+					}
+					return true
+				})
+				if otherStore {
+					p.note("%s.%s is stored outside its runtime constructor (%s)", owner.Obj().Name(), fv.Name(), fd.Name.Name)
+					return false
+				}
+				if !isCtor {
+					continue
+				}
+				ctors++
+				text := param + "." + fv.Name()
+				implies := func(cond ast.Expr, br bool) bool {
+					return impliesBound(info, cond, br, text, p.lo, false) || (p.nonzero && impliesNonZero(info, cond, br, text))
+				}
+				est := func(n ast.Node) bool {
+					as, ok := n.(*ast.AssignStmt)
+					if !ok || len(as.Lhs) != 1 || len(as.Rhs) != 1 || as.Tok != token.ASSIGN || types.ExprString(ast.Unparen(as.Lhs[0])) != text {
+						return false
+					}
+					tv, ok := info.Types[as.Rhs[0]]
+					if !ok || tv.Value == nil {
+						return false
+					}
+					v := constant.ToInt(tv.Value)
+					return v.Kind() == constant.Int && constant.Compare(v, token.GEQ, constant.MakeInt64(p.lo))
+				}
+				// every return that hands out a node
+				good, handsOut := true, 0
+				ast.Inspect(fd.Body, func(n ast.Node) bool {
+					if _, ok := n.(*ast.FuncLit); ok {
+						return false
+					}
+					ret, ok := n.(*ast.ReturnStmt)
+					if !ok {
+						return true
+					}
+					if len(ret.Results) == 0 {
+						// a bare return of a function with named results hands out whatever the results hold
+						if fd.Type.Results == nil || len(fd.Type.Results.List) == 0 || len(fd.Type.Results.List[0].Names) == 0 {
+							return true
+						}
+					} else if types.ExprString(ret.Results[0]) == "nil" {
+						return true
+					}
+					handsOut++
+					if !guardedByEst(fd.Body, ret, text, implies, est) {
+						good = false
+					}
+					return true
+				})
+				if !good || handsOut == 0 {
+					p.note("%s.%s: the runtime constructor %s hands out the node on a path that has neither tested nor clamped the field", owner.Obj().Name(), fv.Name(), fd.Name.Name)
+					return false
+				}
+			}
+		}
+	}
+	if ctors == 0 {
+		return false
+	}
+	return true
+}
+
+// reviewed exceptions of C05.argflow: a relational argument the prover does not make, with the structure it rests on verified
+var c05ArgFlowExempt = map[string]c07Exempt{
+	"SampleNode.shouldKeep#.s.N": {
+		reason: "the division stands in the else branch of `duration != 0`; duration is copied from the pipeline node's Duration once, in the constructor, and the constructor refuses Duration == 0 && N == 0: where the division runs, N is not zero",
+		verify: func(c *core.Ctx) (bool, string) {
+			root := c.P.Pkg("")
+			if root == nil {
+				return false, "root package not loaded"
+			}
+			info := root.TypesInfo
+			keep := c.P.FindFunc("", "SampleNode", "shouldKeep")
+			ctor := c.P.FindFunc("", "", "newSampleNode")
+			if keep == nil || ctor == nil {
+				return false, "shouldKeep or newSampleNode not found"
+			}
+			// (a) every integer division of shouldKeep is in the else branch of an if whose condition is <recv>.duration != 0
+			okA, nDiv := true, 0
+			var walk func(n ast.Node, inElse bool)
+			walk = func(n ast.Node, inElse bool) {
+				ast.Inspect(n, func(m ast.Node) bool {
+					switch x := m.(type) {
+					case *ast.IfStmt:
+						isDur := false
+						if b, ok := x.Cond.(*ast.BinaryExpr); ok && b.Op == token.NEQ && an.FieldSel(info, b.X, "SampleNode", "duration") && types.ExprString(b.Y) == "0" {
+							isDur = true
+						}
+						walk(x.Body, inElse)
+						if x.Else != nil {
+							walk(x.Else, inElse || isDur)
+						}
+						return false
+					case *ast.BinaryExpr:
+						if x.Op == token.REM || x.Op == token.QUO {
+							if bt, ok := info.TypeOf(x.Y).Underlying().(*types.Basic); ok && bt.Info()&types.IsInteger != 0 {
+								nDiv++
+								if !inElse {
+									okA = false
+								}
+							}
+						}
+					}
+					return true
+				})
+			}
+			walk(keep.Decl.Body, false)
+			if !okA || nDiv == 0 {
+				return false, "a division of shouldKeep is not in the else branch of `duration != 0`"
+			}
+			// (b) SampleNode.duration is stored once, from <param>.Duration
+			stores, fromDur := 0, false
+			for _, f := range core.AllFuncs(root) {
+				ast.Inspect(f.Decl.Body, func(n ast.Node) bool {
+					switch x := n.(type) {
+					case *ast.KeyValueExpr:
+						if k, ok := x.Key.(*ast.Ident); ok && k.Name == "duration" {
+							if cl := core.NamedOf(info.TypeOf(x.Value)); cl != nil || true {
+								if nt, ok := info.Uses[k].(*types.Var); ok && nt.IsField() && nt.Name() == "duration" {
+									stores++
+									if strings.HasSuffix(types.ExprString(x.Value), ".Duration") {
+										fromDur = true
+									}
+								}
+							}
+						}
+					case *ast.AssignStmt:
+						for _, l := range x.Lhs {
+							if an.FieldSel(info, l, "SampleNode", "duration") {
+								stores++
+							}
+						}
+					}
+					return true
+				})
+			}
+			if stores != 1 || !fromDur {
+				return false, "SampleNode.duration is not stored exactly once from the pipeline node's Duration"
+			}
+			// (c) the constructor refuses Duration == 0 && N == 0
+			okC := false
+			ast.Inspect(ctor.Decl.Body, func(n ast.Node) bool {
+				is, ok := n.(*ast.IfStmt)
+				if !ok {
+					return true
+				}
+				b, ok := is.Cond.(*ast.BinaryExpr)
+				if !ok || b.Op != token.LAND {
+					return true
+				}
+				zero := func(e ast.Expr, f string) bool {
+					c, ok := ast.Unparen(e).(*ast.BinaryExpr)
+					return ok && c.Op == token.EQL && strings.HasSuffix(types.ExprString(c.X), "."+f) && types.ExprString(c.Y) == "0"
+				}
+				if !((zero(b.X, "Duration") && zero(b.Y, "N")) || (zero(b.X, "N") && zero(b.Y, "Duration"))) {
+					return true
+				}
+				for _, st := range is.Body.List {
+					if ret, ok := st.(*ast.ReturnStmt); ok && len(ret.Results) == 2 && types.ExprString(ret.Results[1]) != "nil" {
+						okC = true
+					}
+				}
+				return true
+			})
+			if !okC {
+				return false, "newSampleNode no longer refuses Duration == 0 && N == 0"
+			}
+			return true, ""
+		},
+	},
 }
